@@ -8,6 +8,7 @@ import (
 
 	tls "github.com/refraction-networking/utls"
 	"github.com/refraction-networking/utls/zz_verif/simnet"
+	"github.com/refraction-networking/utls/zz_verif/simrand"
 	"github.com/refraction-networking/utls/zz_verif/simrt"
 	"github.com/refraction-networking/utls/zz_verif/wire"
 )
@@ -372,6 +373,8 @@ type NegResult struct {
 	Sent  []byte
 	// SharedAfter: the client Config was used before by a connection of this other fingerprint.
 	SharedAfter string
+	// ServerECH: the server holds ECH keys (and advertises them as retry configs).
+	ServerECH bool
 }
 
 // RunNeg executes one negotiation world: fingerprint, dry build, plan, connection, echo.
@@ -406,6 +409,16 @@ func RunNeg(c *Ctx, w *simrt.World, stratum int64, forceKnob string, mkCfg func(
 	r.Offer = OfferOf(dry, specMin)
 	r.Plan = DrawPlan(ch, r.Offer, forceKnob)
 	scfg, stdcfg := ServerConfigs(r.Plan)
+	// the server may be ECH-capable although this client offers no real ECH: a GREASE ECH extension is
+	// then answered with retry configs in EncryptedExtensions, which the client has to ignore
+	if ch.Bool(20, "server-ech-keys") {
+		keyRand := simrand.NewStream(ch.U64("ech-keys"))
+		if k, err := buildECH(keyRand, uint8(ch.Pick(256, "ech-cid")), "public.ech.test", 32, [][2]uint16{{1, 1}, {1, 3}}); err == nil {
+			scfg.EncryptedClientHelloKeys = []tls.EncryptedClientHelloKey{{Config: k.cfg, PrivateKey: k.priv, SendAsRetry: true}}
+			stdcfg.EncryptedClientHelloKeys = []stdtls.EncryptedClientHelloKey{{Config: k.cfg, PrivateKey: k.priv, SendAsRetry: true}}
+			r.ServerECH = true
+		}
+	}
 	frag := ch.Bool(40, "frag")
 	sp := &ConnSpec{ID: f.IDI.ID, Spec: f.Spec(), CCfg: ccfg, Peer: r.Plan.Peer, SCfg: scfg, StdCfg: stdcfg, Payload: payload,
 		Setup: func(l *simnet.Link) { l.Frag = frag }}
